@@ -3,8 +3,9 @@ import hashlib
 
 
 class Stub:
-    def __init__(self, swap=False, lo=1.0, hi=100.0, zero_depth=False, salt=""):
+    def __init__(self, swap=False, lo=1.0, hi=100.0, zero_depth=False, salt="", bimodal=False):
         self.salt = salt
+        self.bimodal = bimodal  # most nodes small, a few very wide and/or very tall (independently)
         self.swap = swap
         self.lo = lo
         self.hi = hi
@@ -16,6 +17,10 @@ class Stub:
         span = self.hi - self.lo
         w = self.lo + (h % 9973) / 9973.0 * span
         ht = self.lo + ((h >> 40) % 9973) / 9973.0 * span
+        if self.bimodal:
+            fw, fh = (h % 9973) / 9973.0, ((h >> 40) % 9973) / 9973.0
+            w = self.lo + (fw * 0.12 if (h >> 100) % 4 else 0.5 + fw * 0.5) * span
+            ht = self.lo + (fh * 0.12 if (h >> 104) % 4 else 0.3 + fh * 0.7) * span
         d = 0.0 if self.zero_depth else ((h >> 80) % 100) / 100.0 * min(5.0, span)
         return round(w, 3), round(ht, 3), round(d, 3)
 
